@@ -99,6 +99,8 @@ pub struct Router {
     // `Router` needs to be `Clone + Send`, and we need to `task.await` in its `shutdown()` impl.
     task: Arc<Mutex<Option<AbortOnDropHandle<()>>>>,
     cancel_token: CancellationToken,
+    /// Cancelled once the run loop task has finished (or was dropped).
+    done_token: CancellationToken,
 }
 
 /// Builder for creating a [`Router`] for accepting protocols.
@@ -422,12 +424,16 @@ impl Router {
     /// When this function returns, all [`ProtocolHandler`]s will be shutdown and
     /// `Endpoint::close` will have been called.
     ///
-    /// If already shutdown, it returns `Ok`.
+    /// If already shutdown, it returns `Ok`. If a shutdown is already in progress
+    /// (for example triggered through a clone of this router), this waits until that
+    /// shutdown has completed.
     ///
     /// If some [`ProtocolHandler`] panicked in the accept loop, this will propagate
     /// that panic into the result here.
     pub async fn shutdown(&self) -> Result<(), n0_future::task::JoinError> {
         if self.is_shutdown() {
+            // Shutdown was already triggered: wait for the run loop to finish.
+            self.done_token.cancelled().await;
             return Ok(());
         }
 
@@ -440,6 +446,9 @@ impl Router {
         let task = self.task.lock().expect("poisoned").take();
         if let Some(task) = task {
             task.await?;
+        } else {
+            // Another caller is awaiting the task: wait for the run loop to finish.
+            self.done_token.cancelled().await;
         }
 
         Ok(())
@@ -516,8 +525,14 @@ impl RouterBuilder {
         // Our own shutdown works with a cancellation token.
         let cancel = CancellationToken::new();
         let cancel_token = cancel.clone();
+        // Signals that the run loop has finished, for concurrent `Router::shutdown` calls.
+        // The guard fires when the run loop future completes or is dropped.
+        let done = CancellationToken::new();
+        let done_guard = done.clone().drop_guard();
 
         let run_loop_fut = async move {
+            // Declared before the cancel guard, so it is dropped after it.
+            let _done_guard = done_guard;
             // Make sure to cancel the token, if this future ever exits.
             let _cancel_guard = cancel_token.clone().drop_guard();
             // We create a separate cancellation token to stop any `ProtocolHandler::accept` futures
@@ -618,6 +633,7 @@ impl RouterBuilder {
             endpoint: self.endpoint,
             task: Arc::new(Mutex::new(Some(task))),
             cancel_token: cancel,
+            done_token: done,
         }
     }
 }
